@@ -1613,15 +1613,18 @@ package engine
 //@ func Unify
 //@   property C02
 //@   nosafety
+//@   calls k atmost 1
 //@   unify-result-checked
 //@   onk[only-after-a-successful-unification] true
 //@ func UnifyWithOccursCheck
 //@   property C02
 //@   nosafety
+//@   calls k atmost 1
 //@   unify-result-checked
 //@ func SubsumesTerm
 //@   property C02
 //@   nosafety
+//@   calls k atmost 1
 //@   unify-result-checked
 //@ func (*VM).exec
 //@   property C02
